@@ -644,30 +644,33 @@ func init() {
 				r.Check(okAll && ge, FuncKey(fn), "RewardsStarted(t) means t >= RewardStartTime", "the result is the disjunction of comparisons of blockTime with the receiver's RewardStartTime that add up to >=", "RewardsStarted is not `block time >= reward start time`", e.Pos(fn.Pos()))
 			}
 			if fn := r.Need("keeper.shouldSkipRewardsToAsset"); fn != nil {
-				fa := e.FA(fn)
+				// "not skipped" implies RewardsStarted(asset, block time): decided on what the helper's outcome implies
+				// at a call site, so that any equivalent boolean form of the helper counts
 				ok := false
-				for _, b := range fn.Blocks {
-					iff, isIf := lastInstr(b).(*ssa.If)
-					if !isIf {
+				for _, cs := range e.CallersOf("keeper.shouldSkipRewardsToAsset") {
+					cfa := e.FA(cs.Fn)
+					call, isCall := cs.Instr.(ssa.CallInstruction)
+					if !isCall {
 						continue
 					}
-					c := fa.Term(iff.Cond)
-					if c.IsCall("types.AllianceAsset.RewardsStarted") && c.Args[0].String() == "$asset" && isBlockTime(c.Args[1]) {
-						// false edge leads to a return of true
-						fs := b.Succs[1]
-						if ret, isRet := lastInstr(fs).(*ssa.Return); isRet {
-							if phi, isPhi := ret.Results[0].(*ssa.Phi); isPhi {
-								for i, p := range fs.Preds {
-									if p == b {
-										if t := fa.Term(phi.Edges[i]); t.Op == "const" && t.Name == "true" {
-											ok = true
-										}
-									}
-								}
-							} else if t := fa.Term(ret.Results[0]); t.Op == "const" && t.Name == "true" {
-								ok = true
-							}
+					cv, isVal := call.(ssa.Value)
+					if !isVal {
+						continue
+					}
+					ct := cfa.Term(cv)
+					args := ct.CallArgsT()
+					if len(args) < 2 {
+						continue
+					}
+					okSite := false
+					for _, hg := range e.helperGuards(Guard{Cond: ct, Pos: false}) {
+						if hg.Pos && hg.Cond.IsCall("types.AllianceAsset.RewardsStarted") && hg.Cond.Args[0].Eq(args[1]) && isBlockTime(hg.Cond.Args[1]) {
+							okSite = true
 						}
+					}
+					ok = okSite
+					if !okSite {
+						break
 					}
 				}
 				r.Check(ok, FuncKey(fn), "assets in warm-up are skipped in the reward split", "!RewardsStarted(BlockTime) => skip", "an asset that has not started is not excluded from the reward split", e.Pos(fn.Pos()))
